@@ -38,19 +38,21 @@ pub struct Poly {
 pub fn meta() -> PropMeta {
   PropMeta {
     id: "C12",
-    rule: "cases = polygons built around a centre c (5-class generator, |lat_c| + R + 0.02 < pi/2), R log-uniform in [1e-4, 0.8): convex = 3..=12 vertices on a small circle of radius in [0.3R, R] at jittered azimuths (gaps in (0.05, 0.95*pi)), star-shaped = same azimuths with radii in [0.2R, R]; both winding orders and any starting vertex; depth <= 12 with R*nside <= 128; both modes (approximate / exact); 12..24 probe points within 2R, 4..8 anywhere and 4..10 on the exact meridian of a vertex for the point-in-polygon predicate; in one case out of three the vertex longitudes are snapped onto the columns of cell corners of the requested depth; non-trivial = polygon overlapping >= 4 cells of the requested depth; distinct by (depth, mode, vertices)",
+    rule: "cases = polygons built around a centre c (5-class generator, |lat_c| + R + 0.02 < pi/2), R log-uniform in [1e-4, 0.8) (3/4) or [1e-9, 1e-4) (1/4): convex = 3..=12 vertices on a small circle of radius in [0.3R, R] at jittered azimuths (gaps in (0.05, 0.95*pi)), star-shaped = same azimuths with radii in [0.2R, R]; both winding orders and any starting vertex; depth <= 29 with R*nside <= 128; both modes (approximate / exact); 12..24 probe points within 2R, 4..8 anywhere and 4..10 on the exact meridian of a vertex for the point-in-polygon predicate; in one case out of three the vertex longitudes are snapped onto the columns of cell corners of the requested depth; non-trivial = polygon overlapping >= 4 cells of the requested depth; distinct by (depth, mode, vertices)",
     assumptions: vec![
-      "inside/outside reference: star-shaped rule around c (in the azimuth wedge of an edge, same side of the edge's great circle as c), identical to the half-space definition for convex polygons; points within 1e-9 rad of an edge plane or of a wedge boundary are not judged".into(),
+      "inside/outside reference: star-shaped rule around c (in the azimuth wedge of an edge, same side of the edge's great circle as c), identical to the half-space definition for convex polygons; points within min(1e-9, max(1e-13, 1e-4 R)) rad of an edge plane or of a wedge boundary are not judged".into(),
       "general no-miss soundness of polygon coverage is not claimed by the property and not checked".into(),
     ],
   }
 }
 
 struct Model {
+  /// no-judgement band around an edge plane / wedge boundary: 1e-4 R, between 1e-13 and 1e-9 rad
+  band: f64,
   c: V3,
   v: Vec<V3>,
-  /// normals v_i x v_{i+1}, oriented so that c is on the positive side
-  n: Vec<V3>,
+  /// +1 / -1 per edge so that c is on the positive side of the edge's great circle
+  sign: Vec<f64>,
 }
 
 impl Model {
@@ -58,13 +60,34 @@ impl Model {
     let c = V3::from_lonlat(p.lon_c, p.lat_c);
     let v: Vec<V3> = p.verts.iter().map(|&(l, b)| V3::from_lonlat(l, b)).collect();
     let k = v.len();
-    let n = (0..k)
-      .map(|i| {
-        let nn = v[i].cross(&v[(i + 1) % k]).normalized();
-        if nn.dot(&c) < 0.0 { nn.scale(-1.0) } else { nn }
-      })
-      .collect();
-    Model { c, v, n }
+    let sign = (0..k).map(|i| if geom::plane_side(&v[i], &v[(i + 1) % k], &c) < 0.0 { -1.0 } else { 1.0 }).collect();
+    Model { band: (1e-4 * p.r).max(1e-13).min(1e-9), c, v, sign }
+  }
+  /// signed distance to the great circle of edge i (positive on the side of c)
+  fn side(&self, i: usize, p: &V3) -> f64 {
+    self.sign[i] * geom::plane_side(&self.v[i], &self.v[(i + 1) % self.v.len()], p)
+  }
+  /// Distance of the point to the nearest edge plane divided by 1e-16 / (shortest edge): the side
+  /// test of the crate (sign of p . (v_i x v_{i+1})) has an absolute error of about 1e-16, i.e.
+  /// 1e-16 / |edge| on the distance to the edge; a point closer than a few times that to an edge
+  /// plane is within the rounding distance of the crate's arithmetic (known finding D25).
+  fn clearance_over_edge_rounding(&self, p: &V3) -> f64 {
+    let k = self.v.len();
+    let mut lmin = f64::INFINITY;
+    let mut clear = f64::INFINITY;
+    for i in 0..k {
+      let (a, b) = (&self.v[i], &self.v[(i + 1) % k]);
+      let l = V3 { x: b.x - a.x, y: b.y - a.y, z: b.z - a.z }.norm();
+      lmin = lmin.min(l);
+      clear = clear.min(self.side(i, p).abs());
+    }
+    clear / (1e-16 / lmin)
+  }
+  /// 1e-16 / (shortest edge): the absolute error of the crate's distance-to-edge (see above)
+  fn edge_rounding(&self) -> f64 {
+    let k = self.v.len();
+    let lmin = (0..k).map(|i| { let (a, b) = (&self.v[i], &self.v[(i + 1) % k]); V3 { x: b.x - a.x, y: b.y - a.y, z: b.z - a.z }.norm() }).fold(f64::INFINITY, f64::min);
+    1e-16 / lmin
   }
   /// Some(inside) or None if the point is too close to an edge plane / wedge boundary to be judged
   fn inside(&self, p: &V3, convex: bool) -> Option<bool> {
@@ -72,8 +95,8 @@ impl Model {
     if convex {
       let mut inside = true;
       for i in 0..k {
-        let s = p.dot(&self.n[i]);
-        if s.abs() < 1e-9 {
+        let s = self.side(i, p);
+        if s.abs() < self.band {
           return None;
         }
         if s < 0.0 {
@@ -90,19 +113,17 @@ impl Model {
     for i in 0..k {
       let (a, b) = (&self.v[i], &self.v[(i + 1) % k]);
       // wedge planes through c and a, c and b
-      let wa = self.c.cross(a).normalized();
-      let wb = self.c.cross(b).normalized();
-      let (sa, sb) = (p.dot(&wa), p.dot(&wb));
+      let (sa, sb) = (geom::plane_side(&self.c, a, p), geom::plane_side(&self.c, b, p));
       // orientation of the wedge: b is on one side of plane (c,a)
-      let ob = b.dot(&wa);
-      let oa = a.dot(&wb);
-      if sa.abs() < 1e-9 || sb.abs() < 1e-9 {
+      let ob = geom::plane_side(&self.c, a, b);
+      let oa = geom::plane_side(&self.c, b, a);
+      if sa.abs() < self.band || sb.abs() < self.band {
         // near a wedge boundary: judged only if both adjacent edges agree; skip
         return None;
       }
       if (sa > 0.0) == (ob > 0.0) && (sb > 0.0) == (oa > 0.0) {
-        let s = p.dot(&self.n[i]);
-        if s.abs() < 1e-9 {
+        let s = self.side(i, p);
+        if s.abs() < self.band {
           return None;
         }
         return Some(s > 0.0);
@@ -186,12 +207,14 @@ pub fn check(c: &Poly, rec: &mut Rec) -> Result<(), Violation> {
       let mut pts = geom::cell_vertices_sphere(n, cell).to_vec();
       pts.push(geom::cell_center_sphere(n, cell));
       for (l, bb) in pts {
-        if m.inside(&V3::from_lonlat(l, bb), true) == Some(false) {
+        let pv = V3::from_lonlat(l, bb);
+        if m.inside(&pv, true) == Some(false) {
           return Err(f(Violation::new(
             "full_flag",
             "not_inside",
             format!("polygon_coverage(depth {}, {:?}, exact={}): cell {}/{} is flagged fully covered but its vertex/centre ({:e}, {:e}) is outside the (convex) polygon", d, c.verts, c.exact, x.depth, x.hash, l, bb),
-          )));
+          )
+          .fact("clearance_over_edge_rounding", m.clearance_over_edge_rounding(&pv))));
         }
       }
     }
@@ -208,7 +231,7 @@ pub fn check(c: &Poly, rec: &mut Rec) -> Result<(), Violation> {
       let lim = r_fit + 2.0 * geom::dmax(x.depth) + 1e-12;
       rec.metric_max("centre_dist_over_limit", dist / lim);
       if !(dist <= lim) {
-        return Err(f(Violation::new("tight", "cell_too_far", format!("polygon_coverage(depth {}, {:?}, exact={}): cell {}/{} has its centre {:e} rad from the centre of the bounding cone (R = {:e}), more than R + 2*Dmax = {:e}", d, c.verts, c.exact, x.depth, x.hash, dist, r_fit, lim)).fact("excess_in_dmax", (dist - lim) / geom::dmax(x.depth))));
+        return Err(f(Violation::new("tight", "cell_too_far", format!("polygon_coverage(depth {}, {:?}, exact={}): cell {}/{} has its centre {:e} rad from the centre of the bounding cone (R = {:e}), more than R + 2*Dmax = {:e}", d, c.verts, c.exact, x.depth, x.hash, dist, r_fit, lim)).fact("excess_in_dmax", (dist - lim) / geom::dmax(x.depth)).fact("edge_rounding_over_dmax", m.edge_rounding() / geom::dmax(x.depth))));
       }
     }
   }
@@ -243,7 +266,8 @@ pub fn check(c: &Poly, rec: &mut Rec) -> Result<(), Violation> {
           format!("Polygon({:?}).contains(({:e}, {:e})) = {} but the point is {} the convex polygon (half-space definition)", c.verts, l, bb, got, if want { "inside" } else { "outside" }),
         )
         .fact("probe_lon", l)
-        .fact("probe_lat", bb)));
+        .fact("probe_lat", bb)
+        .fact("clearance_over_edge_rounding", m.clearance_over_edge_rounding(&V3::from_lonlat(l, bb)))));
       }
     }
   }
@@ -322,12 +346,9 @@ fn is_convex_around(verts: &[(f64, f64)], lon_c: f64, lat_c: f64, r: f64) -> boo
   let cc = V3::from_lonlat(lon_c, lat_c);
   let vv: Vec<V3> = verts.iter().map(|&(l, b)| V3::from_lonlat(l, b)).collect();
   for i in 0..k {
-    let mut nn = vv[i].cross(&vv[(i + 1) % k]).normalized();
-    if nn.dot(&cc) < 0.0 {
-      nn = nn.scale(-1.0);
-    }
+    let sg = if geom::plane_side(&vv[i], &vv[(i + 1) % k], &cc) < 0.0 { -1.0 } else { 1.0 };
     for (j, w) in vv.iter().enumerate() {
-      if j != i && j != (i + 1) % k && w.dot(&nn) < 1e-7 * r {
+      if j != i && j != (i + 1) % k && sg * geom::plane_side(&vv[i], &vv[(i + 1) % k], w) < 1e-7 * r {
         return false;
       }
     }
@@ -336,14 +357,14 @@ fn is_convex_around(verts: &[(f64, f64)], lon_c: f64, lat_c: f64, r: f64) -> boo
 }
 
 fn strat_generic() -> BoxedStrategy<Poly> {
-  let r = (-4.0f64..-0.0969).prop_map(|u| (10.0f64).powf(u));
+  let r = prop_oneof![3 => (-4.0f64..-0.0969), 1 => (-9.0f64..-4.0)].prop_map(|u| (10.0f64).powf(u));
   (r, gens::position_principal(), 3usize..=12, any::<bool>(), any::<bool>(), any::<bool>(), 0usize..12)
     .prop_flat_map(|(r, pos, k, convex, exact, reverse, rot)| {
       let lat_max = geom::HALF_PI - r - 0.0201;
       let lat_c = pos.lat.max(-lat_max).min(lat_max);
       let lon_c = pos.lon;
       let amp = if k == 3 { 0.4 } else if k == 4 { 0.8 } else { 0.9 };
-      let maxd = ((128.0 / r).log2().floor() as i32).max(0).min(12) as u8;
+      let maxd = ((128.0 / r).log2().floor() as i32).max(0).min(29) as u8;
       (
         prop::collection::vec(0.0f64..1.0, k),
         prop::collection::vec(0.0f64..1.0, k),
@@ -375,19 +396,7 @@ fn strat_generic() -> BoxedStrategy<Poly> {
               // snapping may break convexity when two vertices are very close: then only the
               // claims made for every polygon are checked
               if convex {
-                let cc = V3::from_lonlat(lon_c, lat_c);
-                let vv: Vec<V3> = verts.iter().map(|&(l, b)| V3::from_lonlat(l, b)).collect();
-                for i in 0..k {
-                  let mut nn = vv[i].cross(&vv[(i + 1) % k]).normalized();
-                  if nn.dot(&cc) < 0.0 {
-                    nn = nn.scale(-1.0);
-                  }
-                  for (j, w) in vv.iter().enumerate() {
-                    if j != i && j != (i + 1) % k && w.dot(&nn) < 1e-7 * r {
-                      convex = false;
-                    }
-                  }
-                }
+                convex = is_convex_around(&verts, lon_c, lat_c, r);
               }
             }
           }
